@@ -6,6 +6,7 @@ import (
 	"sync"
 	"time"
 
+	"hop.computer/hop/hopserver"
 	"hop.computer/hop/keys"
 	"hop.computer/hop/transport"
 	"verif/harness/simwire"
@@ -175,11 +176,9 @@ func (w *World) Close() {
 }
 
 func vhostCallbacks(o SrvOpt) (func(transport.ClientHandshakeInfo) (*transport.Certificate, error), func() ([]*transport.Certificate, error)) {
-	type vh struct {
-		pat  string
-		cert *transport.Certificate
-	}
-	var list []vh
+	// the same selection rule as hopserver.NewHopServer's getCert closure: first virtual host whose
+	// pattern matches the requested name (hopserver.VirtualHosts.Match)
+	var vhosts hopserver.VirtualHosts
 	ids := append([]*Ident{o.Ident}, o.Extra...)
 	kems := append([]*keys.KEMKeyPair{o.KEM}, o.ExtraKEM...)
 	for i, id := range ids {
@@ -196,21 +195,18 @@ func vhostCallbacks(o SrvOpt) (func(transport.ClientHandshakeInfo) (*transport.C
 		if i < len(o.Patterns) {
 			pat = o.Patterns[i]
 		}
-		list = append(list, vh{pat, tc})
+		vhosts = append(vhosts, hopserver.VirtualHost{Pattern: pat, Certificate: *tc})
 	}
 	get := func(info transport.ClientHandshakeInfo) (*transport.Certificate, error) {
-		name := string(info.ServerName.Label)
-		for _, v := range list {
-			if globMatch(v.pat, name) {
-				return v.cert, nil
-			}
+		if h := vhosts.Match(string(info.ServerName.Label)); h != nil {
+			return &h.Certificate, nil
 		}
-		return nil, fmt.Errorf("no virtual host for %q", name)
+		return nil, fmt.Errorf("%v did not match a host block", info.ServerName)
 	}
 	all := func() ([]*transport.Certificate, error) {
 		var out []*transport.Certificate
-		for _, v := range list {
-			out = append(out, v.cert)
+		for i := range vhosts {
+			out = append(out, &vhosts[i].Certificate)
 		}
 		return out, nil
 	}
@@ -270,11 +266,10 @@ func NewPair(p *PKI, sid, cid *Ident, hidden bool, maxBuffered int) (*Pair, erro
 		kem = NewKEM()
 	}
 	s := w.NewServer(sa, SrvOpt{Ident: sid, KEM: kem, Hidden: hidden, MaxBuffered: maxBuffered})
-	opt := CliOpt{Ident: cid, Verify: p.Policy("store", "a.example")}
+	opt := CliOpt{Ident: cid, Verify: p.Policy("store", "a.example"), MaxBuffered: maxBuffered}
 	if hidden {
 		opt.ServerKEM = &kem.Public
 	}
-	opt.MaxBuffered = maxBuffered
 	c := w.NewClient(simwireAddr("10.0.1.1", 1001), sa, opt)
 	if err := w.RunHandshake(c, s); err != nil {
 		w.Close()
